@@ -242,3 +242,209 @@ Proof.
   split; [vm_compute; reflexivity|]. split; [vm_compute; reflexivity|]. split; [vm_compute; reflexivity|].
   split; [vm_compute; reflexivity|]. split; vm_compute; reflexivity.
 Qed.
+
+(* (6) The WRITE path down to the bytes that reach the journal and the memdb (Codec/Batch.v = leveldb/batch.go
+   and the memdb-insertion half of db_write.go / journal recovery: Batch.Put/Delete (appendRec), Dump, Load
+   (decodeBatch), Replay, the 12-byte header, writeBatchesWithHeader = the ONE journal record of a merged group,
+   Batch.putMem, decodeBatchToMem, the per-record step of recoverJournal).  Go ints are 64-bit with the wrap
+   written out; panics, non-termination (fuel) and corruption errors are explicit results. *)
+From GL Require Import Codec.Batch Codec.BatchProofs Codec.BatchCutProofs Codec.BatchGroupProofs Lsm.BatchWriteProofs
+  Lsm.ReorgProofs Gen.Consts.
+From GL Require Mem.MemSpec.
+
+(* the constants the statements below fix, re-proved from the generated ones on every run *)
+Example C01_batch_consts : ldb_batchHeaderLen = 12%N /\ keyTypeDel kp = 0%N /\ keyTypeVal kp = 1%N.
+Proof. repeat split. Qed.
+
+(* (6a) Load(Dump(b)) rebuilds b — bytes, index array, internalLen — for EVERY record list (empty keys and
+   values, any lengths; the only size condition is the one Go's int imposes: the encoding is shorter than
+   2^59 bytes, so that internalLen does not wrap), and the records read back are the ones written, a
+   deletion carrying no value. *)
+Theorem C01_batch_load_dump : forall p, kparams_ok p -> forall recs,
+  Forall (rec_ok p) recs -> (lenN (enc_recs p recs) < 2 ^ 59)%N ->
+  batch_load p (batch_dump (batch_of p recs)) = DOk (batch_of p recs).
+Proof. exact load_dump. Qed.
+Print Assumptions C01_batch_load_dump.
+
+Theorem C01_batch_roundtrip : forall p, kparams_ok p -> forall recs,
+  Forall (rec_ok p) recs -> (lenN (enc_recs p recs) < 2 ^ 59)%N ->
+  exists b, batch_load p (batch_dump (batch_of p recs)) = DOk b /\
+            batch_records b = Some (map (norm_rec p) recs) /\
+            batch_len b = N.of_nat (length recs).
+Proof. exact batch_roundtrip. Qed.
+Print Assumptions C01_batch_roundtrip.
+
+(* (6b) The decoder on other bytes.  FULL STATEMENT WANTED: "on arbitrary bytes Batch.Load returns records or
+   an error, never panics, always terminates".  That statement is FALSE for the code (and for the model, which
+   follows it): a uvarint length field >= 2^63 - offset wraps the int offset, see
+   C01_batch_decode_total_refuted.  Proved instead, _partial: for every byte string none of whose length
+   fields (read at any offset) reaches 2^63 together with the data's length, Load returns a batch or a
+   corruption error; the fuel len(data)+1 is never exhausted.  What is missing for the full statement is a
+   range check in decodeBatch (x > uint64(len(data)-o)), i.e. a change of the code. *)
+Theorem C01_batch_decode_total_partial : forall p data, small_lens data ->
+  (exists b, batch_load p data = DOk b) \/ (exists e b, batch_load p data = DErr e b).
+Proof. exact load_total. Qed.
+Print Assumptions C01_batch_decode_total_partial.
+
+(* ... and precisely on a CUT encoding (FULL): the first n bytes of the encoding of a record list decode to
+   the records that lie wholly before the cut when the cut falls between two records — a shorter batch, NOT
+   an error: the plain encoding carries no count — and otherwise to the error 'invalid key length' (cut
+   before the end of the cut record's key) or 'invalid value length' (after it), with the records before it
+   already indexed. *)
+Theorem C01_batch_decode_prefix : forall p, kparams_ok p -> forall recs n,
+  Forall (rec_ok p) recs -> (lenN (enc_recs p recs) < 2 ^ 59)%N ->
+  batch_load p (takeN n (enc_recs p recs)) =
+  match cut_at p n recs with
+  | (done, None) => DOk (mkbatch (takeN n (enc_recs p recs)) (idxs_of p 0 done) (ilen_of p done))
+  | (done, Some (r, m)) => DErr (cut_err r m) (mkbatch (takeN n (enc_recs p recs)) (idxs_of p 0 done) (ilen_of p done))
+  end.
+Proof. exact load_prefix. Qed.
+Print Assumptions C01_batch_decode_prefix.
+
+(* the refutation of totality, as witnesses (they are real: Batch.Load on these inputs does not return /
+   panics; known_findings_C01.txt batch-load-huge-varint): 11 bytes on which the decoding loop never
+   advances, for EVERY amount of fuel; inputs on which the model indexes with a negative offset *)
+Theorem C01_batch_decode_total_refuted :
+  (forall fuel i b, decode_loop kp fuel loop_input decode_cb i 0%Z b = DFuel) /\
+  batch_load kp loop_input = DFuel /\
+  batch_load kp [0; 255; 255; 255; 255; 255; 255; 255; 255; 127]%N = DPanic /\
+  batch_load kp [1; 128; 128; 128; 128; 128; 128; 128; 128; 128; 1]%N = DPanic.
+Proof.
+  split; [exact (loop_input_never_ends kp eq_refl)|]. repeat split; vm_compute; reflexivity.
+Qed.
+Print Assumptions C01_batch_decode_total_refuted.
+
+(* (6c) The journal record of a merged group: one header with the group's first sequence number and the
+   TOTAL count, then the records of every batch in order.  It decodes to exactly that. *)
+Theorem C01_group_record_roundtrip : forall p, kparams_ok p -> forall bhl, bhl = 12%N -> forall groups seq,
+  Forall (rec_ok p) (concat groups) -> (seq < 2 ^ 64)%N ->
+  (N.of_nat (length (concat groups)) < 2 ^ 32)%N -> (lenN (enc_recs p (concat groups)) < 2 ^ 59)%N ->
+  let record := group_record (group_of p groups) seq in
+  decode_header bhl record = inr (seq, N.of_nat (length (concat groups))) /\
+  batch_load p (dropN bhl record) = DOk (batch_of p (concat groups)) /\
+  batch_records (batch_of p (concat groups)) = Some (map (norm_rec p) (concat groups)).
+Proof. exact group_record_roundtrip. Qed.
+Print Assumptions C01_group_record_roundtrip.
+
+(* (6d) Replay = live, for EVERY memdb state (no invariant needed: both paths are the same sequence of
+   makeInternalKey + memdb.Put calls): decodeBatchToMem of the group's journal record is rejected with
+   'invalid sequence number', the memdb untouched, when the record is older than expected; otherwise it IS
+   putMem of the group's batches in order and returns (first seq, total count).  So recovery replays a
+   group atomically: all of its records, or an error before the first one. *)
+Theorem C01_replay_equals_live : forall p, kparams_ok p -> forall bhl, bhl = 12%N ->
+  forall mc mp groups seq expect d hs,
+  Forall (rec_ok p) (concat groups) -> (seq < 2 ^ 64)%N ->
+  (N.of_nat (length (concat groups)) < 2 ^ 32)%N -> (lenN (enc_recs p (concat groups)) < 2 ^ 59)%N ->
+  decode_to_mem p bhl mc mp (group_record (group_of p groups) seq) expect d hs =
+  if (seq <? expect)%N then TmErr ESeq d hs
+  else match putmem_group p mc mp (group_of p groups) seq d hs with
+       | PmOk d' hs' => TmOk seq (N.of_nat (length (concat groups))) d' hs'
+       | PmPanic => TmPanic
+       | PmFuel => TmFuel
+       end.
+Proof. exact replay_equals_live. Qed.
+Print Assumptions C01_replay_equals_live.
+
+(* ... the live path's own record, replayed by recoverJournal's step at the old db.seq, rebuilds the live
+   path's memdb; db.seq becomes first seq + count, one above the live path's db.seq *)
+Theorem C01_write_then_recover : forall p, kparams_ok p -> forall bhl, bhl = 12%N ->
+  forall mc mp groups dbseq strict d hs record d' hs' dbseq',
+  Forall (rec_ok p) (concat groups) -> (dbseq + 1 < 2 ^ 64)%N ->
+  (N.of_nat (length (concat groups)) < 2 ^ 32)%N -> (lenN (enc_recs p (concat groups)) < 2 ^ 59)%N ->
+  write_group p mc mp dbseq (group_of p groups) d hs = WgOk record d' hs' dbseq' ->
+  recover_step p bhl mc mp strict record dbseq d hs = RsOk d' hs' (u64 (dbseq' + 1)).
+Proof. exact write_then_recover. Qed.
+Print Assumptions C01_write_then_recover.
+
+(* (6e) putMem is one HWrite step of the history machine: on a memdb that satisfies C14's representation
+   invariant, holds stored keys and nothing newer than db.seq, Batch.putMem at db.seq+1 of a batch built by
+   Put/Delete calls succeeds (no panic — sequence numbers stay <= keyMaxSeq —, fuel suffices), keeps the
+   invariant, and the memdb's abstraction (the entries of its level-0 chain, as ReadPath's abs reads them)
+   is the old abstraction plus exactly the entries (k_i, db.seq+1+i, kind_i, v_i) = stamp db.seq recs, which
+   is what hstep (HWrite recs) appends to the store.  Uses C14's put_ok; the skip list is not re-proved. *)
+Theorem C01_putmem_is_history_write :
+  forall c, comparer_ok c -> forall p, kparams_ok p -> (keyTypeSeek p <= keyTypeVal p)%N ->
+  forall mp, MemDB.mparams_ok mp -> forall d recs dbseq hs,
+  mem_ok c p mp d -> (forall x, In x (mem_entries mp (Some d)) -> (e_seq x <= dbseq)%N) ->
+  Forall (rec_wf p) recs -> (dbseq + N.of_nat (length recs) <= keyMaxSeq p)%N -> heights_okl mp hs ->
+  (lenN (enc_recs p recs) < 2 ^ 63)%N ->
+  exists d' hs',
+    batch_putmem p (ibc c) mp (batch_of p recs) (dbseq + 1) d hs = PmOk d' hs' /\ mem_ok c p mp d' /\ heights_okl mp hs' /\
+    (forall x, In x (mem_entries mp (Some d')) <->
+               In x (mem_entries mp (Some d)) \/ In x (stamp dbseq (map (norm_rec p) recs))).
+Proof. exact putmem_is_history_write. Qed.
+Print Assumptions C01_putmem_is_history_write.
+
+(* (6f) ... composed with (5): after a merged group was written — live path (write_group) or replay path
+   (recover_step on the record the live path wrote) — the byte state is well-formed again and DB.Get computed
+   on the bytes at the new sequence number returns, for every key, what the group's LAST record for that key
+   says (its value; not-found for a deletion), and for a key the group does not mention what DB.Get returned
+   before the write. *)
+Theorem C01_get_after_group_write :
+  forall c, comparer_ok c -> forall p, kparams_ok p -> (keyTypeSeek p <= keyTypeVal p)%N ->
+  forall mp, MemDB.mparams_ok mp ->
+  forall tp crc decompress fname ufc verify ri st d groups dbseq hs k strict,
+  wf_bstate c p mp tp crc decompress fname ufc verify ri st -> bs_mem st = Some d ->
+  uniq_in (all_entries (abs c mp tp crc decompress fname ufc verify ri st)) ->
+  (forall x, In x (all_entries (abs c mp tp crc decompress fname ufc verify ri st)) -> (e_seq x <= dbseq)%N) ->
+  Forall (rec_wf p) (concat groups) -> (dbseq + N.of_nat (length (concat groups)) <= keyMaxSeq p)%N -> heights_okl mp hs ->
+  (N.of_nat (length (concat groups)) < 2 ^ 32)%N -> (lenN (enc_recs p (concat groups)) < 2 ^ 59)%N -> wf_bytes k ->
+  exists record d' hs' prev,
+    write_group p (ibc c) mp dbseq (group_of p groups) d hs = WgOk record d' hs' (dbseq + N.of_nat (length (concat groups))) /\
+    recover_step p 12 (ibc c) mp strict record dbseq d hs = RsOk d' hs' (dbseq + N.of_nat (length (concat groups)) + 1) /\
+    wf_bstate c p mp tp crc decompress fname ufc verify ri (with_mem st d') /\
+    bapi (db_get_bytes c p mp tp crc decompress fname ufc verify st k dbseq) = Some prev /\
+    bapi (db_get_bytes c p mp tp crc decompress fname ufc verify (with_mem st d') k (dbseq + N.of_nat (length (concat groups)))) =
+      Some (recs_get p c k (concat groups) prev).
+Proof. exact get_after_group_replay. Qed.
+Print Assumptions C01_get_after_group_write.
+
+(* Non-vacuity of (6): on the byte state of C01_bytes_nonvacuous (three table files written by goleveldb + a
+   memdb), a merged group of two batches — Put a, Delete c | Put h, Put a again — satisfies every hypothesis of
+   C01_get_after_group_write at db.seq = 13, and the model, evaluated, writes one journal record with first
+   sequence number 14 and count 4 and then answers: a = the second Put, c deleted, h present, b unchanged. *)
+Definition ex_d : MemDB.db :=
+  match mem_of bytewise mp ex_mem_puts with Some d => d | None => MemDB.mkdb [] [] 1 0%Z 0%Z end.
+Definition ex_groups : list (list brec) :=
+  [[(1, [97], [1; 1]); (0, [99], [])]; [(1, [104], []); (1, [97], [2])]]%N.
+Definition ex_abs : lstate := abs bytewise mp tblp tbl_crc ex_nodec ex_fname (bloom_ufc bp (BinInt.Z.of_N 10)) true 2 ex_bstate.
+
+Example C01_batch_write_nonvacuous :
+  bs_mem ex_bstate = Some ex_d /\
+  uniq_in (all_entries ex_abs) /\
+  (forall x, In x (all_entries ex_abs) -> (e_seq x <= 13)%N) /\
+  Forall (rec_wf kp) (concat ex_groups) /\ heights_okl mp [2; 1; 1]%N /\
+  match write_group kp (ibc bytewise) mp 13 (group_of kp ex_groups) ex_d [2; 1; 1]%N with
+  | WgOk record d' _ s' =>
+      decode_header 12 record = inr (14, 4)%N /\ s' = 17%N /\
+      map (fun k => bapi (db_get_bytes bytewise kp mp tblp tbl_crc ex_nodec ex_fname (bloom_ufc bp (BinInt.Z.of_N 10)) true
+                            (with_mem ex_bstate d') [k] 17)) [97; 98; 99; 104]%N =
+      [Some (Some [2]); Some (Some [98; 49]); Some None; Some (Some [])]%N
+  | _ => False
+  end.
+Proof.
+  split; [vm_compute; reflexivity|].
+  split; [apply CertProofs.uniqb_uniq_in; vm_compute; reflexivity|].
+  split.
+  { assert (H : forallb (fun x => (e_seq x <=? 13)%N) (all_entries ex_abs) = true) by (vm_compute; reflexivity).
+    intros x Hx. rewrite forallb_forall in H. apply N.leb_le. apply H. exact Hx. }
+  split; [repeat constructor; vm_compute; auto; intros; discriminate|].
+  split; [repeat constructor; vm_compute; congruence|].
+  vm_compute. repeat split.
+Qed.
+
+(* What (6d) does NOT say, as a witness: a record whose header count exceeds the records of its body (it can
+   only reach recovery with a valid checksum) is reported as corrupted AFTER its records were inserted — they
+   stay in the memdb, and non-strict recovery continues with them (db.seq untouched). *)
+Example C01_replay_damaged_record_leaves_partial_batch :
+  match MemDB.mdb_new mp with
+  | MemDB.Ok d0 =>
+      let record := encode_header 5 3 ++ enc_recs kp [(1, [97], [1]); (0, [98], [])]%N in
+      match recover_step kp 12 (ibc bytewise) mp false record 5 d0 [1; 1]%N with
+      | RsOk d' _ s' => MemDB.nEnt d' = 2%Z /\ s' = 5%N
+      | _ => False
+      end /\
+      recover_step kp 12 (ibc bytewise) mp true record 5 d0 [1; 1]%N = RsFail (ERecLenMismatch 3 2)
+  | _ => False
+  end.
+Proof. vm_compute. repeat split. Qed.
